@@ -5,7 +5,9 @@ C21 — pipelined requests are handled one at a time; every notifyFinish Deferre
 Proved here on the channel model (`TwistedModel/Http/Channel.lean`), for EVERY application (`App`: what it writes
 in `requestReceived`, whether it finishes there, later or never, how many `notifyFinish()` Deferreds it takes) and
 EVERY history `ops : List Op` from a fresh connection (bytes delivered in any segmentation, the application
-finishing the request it holds, transport pause/resume, connection loss at any event boundary):
+finishing the request it holds, the application dropping the client itself — `Op.close`: `request.loseConnection()`
+on the request it holds —, transport pause/resume, connection loss at any event boundary).  A resource that raises is an
+`App` whose `onRequest` is what `server.Request.processingFailed` writes, finished (`siteApp`, script modes 4/5):
 
 * `at_most_one_request_in_flight` — (a) at every point of the outputs the requests handed over are at most one
   ahead of the `requestDone`s; `requestReceived` only happens when every earlier request is done; `requestDone(k)`
@@ -78,6 +80,27 @@ theorem loss_fires_pending (s : St) :
   · unfold notifyOuts; split <;> simp [written]
   · simp [written]
 
+/-- the application dropping the client writes nothing, fires nothing, hands nothing over: the request it holds stays
+    in flight with its Deferreds pending (they fire at the loss — `loss_fires_pending` — or at `finish`) -/
+theorem close_keeps_request (s : St) :
+    written (appClose s).outs = written s.outs ∧ delivered (appClose s).outs = delivered s.outs ∧
+    (appClose s).chan.inflight = s.chan.inflight ∧ (appClose s).chan.pendingNotify = s.chan.pendingNotify ∧
+    (appClose s).lost = s.lost := by
+  unfold appClose
+  have hw : ∀ (a : List Out), written (a ++ [Out.lose]) = written a := by
+    intro a
+    induction a with
+    | nil => rfl
+    | cons x r ih => cases x <;> simp [written, ih]
+  have hd : ∀ (a : List Out), delivered (a ++ [Out.lose]) = delivered a := by
+    intro a
+    induction a with
+    | nil => rfl
+    | cons x r ih => cases x <;> simp [delivered, ih]
+  split
+  · exact ⟨hw _, hd _, rfl, rfl, rfl⟩
+  · exact ⟨rfl, rfl, rfl, rfl, rfl⟩
+
 theorem lost_after_lose (app : App) (s : St) : (step app s .lose).lost = true := by
   simp only [step]
   split
@@ -141,6 +164,14 @@ example : (runOps exApp init [.data exReq, .lose, .finish, .data exReq, .lose]).
       (runOps exApp init [.data exReq]).outs ++ [.notify 0 2 false] ∧
     (runOps exApp init [.data exReq, .finish]).outs =
       (runOps exApp init [.data exReq]).outs ++ [.appWrite 0 [72], .done 0, .tpause false, .notify 0 2 true] := by
+  decide +kernel
+
+/-- the application drops the client while it holds the request (two Deferreds), then the connection goes: they fire with
+    a failure, once; had it finished instead, with `None` -/
+example : (runOps exApp init [.data exReq, .close, .lose, .finish]).outs =
+      (runOps exApp init [.data exReq]).outs ++ [.lose, .notify 0 2 false] ∧
+    (runOps exApp init [.data exReq, .close, .finish, .lose]).outs =
+      (runOps exApp init [.data exReq]).outs ++ [.lose, .appWrite 0 [72], .done 0, .tpause false, .notify 0 2 true] := by
   decide +kernel
 
 /-! ### the global statements: any application, any history -/
